@@ -290,6 +290,11 @@ class Guards:
                 toks = {}
                 for tk in self.token_of_class_expr(n.exc, fi):
                     toks[tk] = (self._link(fi, n),)
+                # `raise <variable>` of unknown class (an error object handed back by someone): anything, also what `except Exception` lets through
+                known_exc = [tk for tk in toks if _builtin_exc(tk) is not None or tk in self.p.classes]
+                if isinstance(n.exc, ast.Name) and self.t.local_bindings(fi, n.exc.id) and not known_exc and \
+                        not any(k_ == "except" for k_, _b in self.t.local_bindings(fi, n.exc.id)):
+                    toks = {"BaseException": (self._link(fi, n),)}
                 out.append(Site(n, "raise", toks))
             elif isinstance(n, ast.Assert):
                 out.append(Site(n, "assert", {"AssertionError": (self._link(fi, n),)}))
